@@ -31,9 +31,11 @@ go build ./... >> $log 2>&1 || { echo "build fails with patch" >> $log; ok=0; }
 suite=$(go test -vet=off -count=1 ./... 2>&1 | grep -E "^(FAIL|---)" | grep -v "jtp" | grep -v "TestBasic\|TestRedirect" | grep -v "^FAIL$")
 [ -n "$suite" ] && { echo "suite fails with patch: $suite" >> $log; ok=0; }
 cp $src/demo_test.go.txt $target
-if go test -vet=off -count=1 ./$pkgdir > $dest/demo_with_patch.log 2>&1; then echo "demo passes WITH patch (should fail)" >> $log; ok=0; fi
+names=$(grep -oE "^func (Test[A-Za-z0-9_]+)" $src/demo_test.go.txt | awk '{print $2}' | paste -sd'|')
+race=""; head -5 $src/demo_test.go.txt | grep -q -- "-race" && race="-race"
+if go test $race -vet=off -count=1 -run "^($names)\$" ./$pkgdir > $dest/demo_with_patch.log 2>&1; then echo "demo passes WITH patch (should fail)" >> $log; ok=0; fi
 git checkout -q -- .
-if ! go test -vet=off -count=1 ./$pkgdir > $dest/demo_without_patch.log 2>&1; then echo "demo fails WITHOUT patch (should pass)" >> $log; ok=0; fi
+if ! go test $race -vet=off -count=1 -run "^($names)\$" ./$pkgdir > $dest/demo_without_patch.log 2>&1; then echo "demo fails WITHOUT patch (should pass)" >> $log; ok=0; fi
 rm -f $target
 # run the check against the worktree with the patch applied
 git apply $src/patch.diff
